@@ -102,6 +102,12 @@ ANYARG_BUILTINS = set("max min sum".split())
 # not tensor writes and are only logged (DESIGN.md C11 "Limits")
 LOGGED_ATTR_STORES = {"instances"}
 
+# super().<method>() calls that are external oracles returning new objects (litdata)
+SUPER_FRESH_METHODS = {"__getitem__"}
+# constructors of callables whose call allocates its result (torchvision PILToTensor:
+# torch.as_tensor(np.array(pic, copy=True)))
+FRESH_CALLABLE_CTORS = ("torchvision.transforms.PILToTensor",)
+
 # methods of the Dataset classes themselves that are external oracles (fresh result)
 SELF_FRESH_METHODS = {"_get_video_idx", "transform_to_pil", "transform_pil_to_tensor"}
 
@@ -117,9 +123,11 @@ MODULES = {
     "sleap_nn.data.augmentation": f"{DATA}/augmentation.py",
     "sleap_nn.data.utils": f"{DATA}/utils.py",
     "sleap_nn.data.custom_datasets": f"{DATA}/custom_datasets.py",
+    "sleap_nn.data.streaming_datasets": f"{DATA}/streaming_datasets.py",
 }
 
 CD = "sleap_nn.data.custom_datasets"
+SD = "sleap_nn.data.streaming_datasets"
 FILL_SELF = {"labels": ("param", 0), "cache": ("local",), "cache_lf": ("local",), None: ("param", 1)}
 # (display name, module, qualified name, self model or None)
 TARGETS = [
@@ -155,6 +163,18 @@ TARGETS = [
     ("BaseDataset._fill_cache", CD, "BaseDataset._fill_cache", FILL_SELF),
     ("CenteredInstanceDataset._fill_cache", CD, "CenteredInstanceDataset._fill_cache", FILL_SELF),
     ("CentroidDataset._fill_cache", CD, "CentroidDataset._fill_cache", FILL_SELF),
+    # round 2: index lists, label scans, grid helpers, the streaming datasets' reads
+    ("BaseDataset._get_lf_idx_list", CD, "BaseDataset._get_lf_idx_list", FILL_SELF),
+    ("CenteredInstanceDataset._get_instance_idx_list", CD, "CenteredInstanceDataset._get_instance_idx_list", FILL_SELF),
+    ("get_max_instances", "sleap_nn.data.providers", "get_max_instances", None),
+    ("get_max_height_width", "sleap_nn.data.providers", "get_max_height_width", None),
+    ("make_grid_vectors", "sleap_nn.data.utils", "make_grid_vectors", None),
+    ("gaussian_pdf", "sleap_nn.data.utils", "gaussian_pdf", None),
+    ("find_padding_for_stride", "sleap_nn.data.resizing", "find_padding_for_stride", None),
+    ("BottomUpStreamingDataset.__getitem__", SD, "BottomUpStreamingDataset.__getitem__", None),
+    ("CenteredInstanceStreamingDataset.__getitem__", SD, "CenteredInstanceStreamingDataset.__getitem__", None),
+    ("CentroidStreamingDataset.__getitem__", SD, "CentroidStreamingDataset.__getitem__", None),
+    ("SingleInstanceStreamingDataset.__getitem__", SD, "SingleInstanceStreamingDataset.__getitem__", None),
 ]
 
 
@@ -221,6 +241,7 @@ class Scope:
         self.names: dict[str, int] = {}      # Python name -> its CURRENT version (IR variable)
         self.frozen: set[str] = set()        # names whose versioning is switched off (loops with break/continue, try)
         self.oracles: set[str] = set()
+        self.fresh_callables: set[str] = set()
         self.ret: int | None = None
         self.ret_elts: list[int] | None = None
         self.fname = "?"
@@ -502,6 +523,13 @@ class Translator:
                 and (sc.self_model is not None or "self" in sc.names) and f.attr in SELF_FRESH_METHODS:
             self.args_of(e, sc, out)
             return self.fresh(out, e, sc, f"self.{f.attr}() oracle")
+        # ---- super().__getitem__(index) of a litdata StreamingDataset: the sample is deserialised from
+        #      the chunk file on every call: a new dict holding new objects (external oracle)
+        if isinstance(f, ast.Attribute) and f.attr in SUPER_FRESH_METHODS and isinstance(f.value, ast.Call) \
+                and isinstance(f.value.func, ast.Name) and f.value.func.id == "super" and not f.value.args:
+            self.args_of(e, sc, out)
+            inner = self.fresh(out, e, sc, f"super().{f.attr}() oracle: deserialised field")
+            return self.tmp(out, ("box", self.new_site(e, f"super().{f.attr}() oracle: sample dict", sc), [inner]), "super")
         canon = self.canon(f, sc)
         if canon is not None:
             # ---- a function of the analysed modules: inline
@@ -514,7 +542,7 @@ class Translator:
                 o = kw["out"]
                 out.append(self.mkstore(o, [a for a in allargs if a != o]))
                 return self.tmp(out, ("alias", o), "out")
-            if canon in ORACLE_CTORS or canon.startswith(FRESH_PREFIXES):
+            if canon in ORACLE_CTORS or canon in FRESH_CALLABLE_CTORS or canon.startswith(FRESH_PREFIXES):
                 return self.fresh(out, e, sc, f"{canon}() oracle")
             if canon in FUNC_TABLE:
                 return self.apply_kind(FUNC_TABLE[canon], e, sc, out, pos[0] if pos else None, allargs, canon)
@@ -524,6 +552,8 @@ class Translator:
             pos, kw, extra = self.args_of(e, sc, out)
             allargs = pos + list(kw.values()) + extra
             if f.id in sc.names:
+                if f.id in sc.fresh_callables:
+                    return self.fresh(out, e, sc, f"{f.id}() fresh-result callable")
                 if f.id in sc.oracles:
                     # kornia AugmentationSequential.__call__: an external oracle whose outputs are new
                     # tensors or (when no operation fires, observed) the inputs themselves
@@ -697,6 +727,10 @@ class Translator:
                     for t in s.targets:
                         if isinstance(t, ast.Name):
                             sc.oracles.add(t.id)
+                if isinstance(s.value, ast.Call) and self.canon(s.value.func, sc) in FRESH_CALLABLE_CTORS:
+                    for t in s.targets:
+                        if isinstance(t, ast.Name):
+                            sc.fresh_callables.add(t.id)
             for t in s.targets:
                 self.assign_target(t, val, elts, sc, out)
         elif isinstance(s, ast.AnnAssign):
@@ -1015,7 +1049,7 @@ def obligations_text(accepted: list[str], module="C11_AliasProg") -> str:
     instantiated on the generated program."""
     t = ("(* GENERATED per run: one acceptance obligation per accepted target. *)\n"
          "From Coq Require Import String.\nFrom Coq Require Import List.\nImport ListNotations.\n"
-         f"From SV Require Import C11.AliasIR C11.Lemmas.\nRequire Import {module}.\n\n")
+         f"From SV Require Import C11.AliasIR C11.Lemmas C11.History C11.LemmasH.\nRequire Import {module}.\n\n")
     for name in accepted:
         i = coq_ident(name)
         t += (f"Theorem accepted_{i} : fn_accepted fn_{i} = true.\nProof. vm_compute. reflexivity. Qed.\n"
@@ -1024,6 +1058,23 @@ def obligations_text(accepted: list[str], module="C11_AliasProg") -> str:
               f"  forall o, o < length h -> nth_error h' o = nth_error h o.\n"
               f"Proof. exact (fn_accepted_sound_l fn_{i} accepted_{i}). Qed.\n"
               f"Print Assumptions pure_{i}.\n\n")
+    # histories: any interleaving of calls of the accepted functions (reads of any dataset at any index,
+    # helper calls) leaves every object existing before it (labels, cache, cached samples) as it was,
+    # and never alters a sample handed out earlier
+    ids = [coq_ident(n) for n in accepted]
+    t += "Definition accepted_fns : list fn :=\n  [" + ";\n   ".join("fn_" + i for i in ids) + "].\n"
+    proof = "(@Forall_nil _ _)"
+    for i in reversed(ids):
+        proof = f"(@Forall_cons _ _ fn_{i} _ accepted_{i}\n   {proof})"
+    t += ("Lemma all_accepted : Forall (fun f => fn_accepted f = true) accepted_fns.\n"
+          f"Proof. exact {proof}. Qed.\n"
+          "Theorem history_pure : forall h h', wf_heap h -> calls accepted_fns h h' ->\n"
+          "  (forall n o, o < length h -> value n h' o = value n h o) /\\\n"
+          "  (forall h2, calls accepted_fns h' h2 -> forall n o, o < length h' -> value n h2 o = value n h' o).\n"
+          "Proof. intros h h' Hwf Hc. split.\n"
+          "  - exact (history_value_l accepted_fns all_accepted h h' Hwf Hc).\n"
+          "  - intros h2 Hc2. exact (earlier_results_stable_l accepted_fns all_accepted h h' h2 Hwf Hc Hc2).\n"
+          "Qed.\nPrint Assumptions history_pure.\n\n")
     return t
 
 
